@@ -625,10 +625,10 @@ Definition ex_stale_history : list hop :=
    HCrash 0 clean_cut HJournal].
 
 Definition ex_stale_check : bool :=
-  match run (init_world (mkJCfg 0 false 1 true) false 0) (firstn 6 ex_stale_history) with
+  match run (init_world (mkJCfg 0 false 1 0) false 0) (firstn 6 ex_stale_history) with
   | Some w =>
       match snd (open (crash clean_cut w)) with
-      | Fail 1 _ => match run (init_world (mkJCfg 0 false 1 true) false 0) ex_stale_history with
+      | Fail 1 _ => match run (init_world (mkJCfg 0 false 1 0) false 0) ex_stale_history with
                     | None => true | Some _ => false end
       | _ => false
       end
@@ -638,7 +638,7 @@ Definition ex_stale_check : bool :=
 (* the same history on the repaired code (journal dropped by Recover): every crash point
    of the Recover and the state after it reopen, at the rolled-back state *)
 Definition ex_fixed_check : bool :=
-  let w0 := init_world (mkJCfg 0 false 1 false) false 0 in
+  let w0 := init_world (mkJCfg 0 false 1 1) false 0 in
   match run w0 (firstn 5 ex_stale_history) with
   | Some w =>
       forallb (fun wc => match snd (open (crash clean_cut wc)) with Done _ => true | Fail _ _ => false end)
@@ -650,6 +650,34 @@ Definition ex_fixed_check : bool :=
   | None => false
   end.
 
+(* the repair 045cec3993 drops the journal AFTER the revert loop: too late.  Journal at
+   persisted id 2 with buffered layers 3, 4; restart; flush to id 5; a Recover dies after
+   its second revert batch (persisted id 3, journal still stored, rejected); a new fork
+   4', 5' is flushed; a second Recover dies after the batch that restores id 2: the stale
+   journal is accepted again and its disk layer (old fork, id 4) is put on top of the
+   histories of the new fork *)
+Definition tr_from (i prev : N) : transition := mkTr i [mkChange (KA 0) prev i].
+
+Definition ex_late_history : list hop :=
+  [HUpdate (tr_from 1 0); HUpdate (tr_from 2 1); HCommit 0;
+   HUpdate (tr_from 3 2); HUpdate (tr_from 4 3); HUpdate (tr_from 5 4); HJournal; HReopen;
+   HCommit 0; HCrash 2 clean_cut (HRecover 3);
+   HUpdate (tr_from 6 3); HUpdate (tr_from 7 6); HCommit 0; HCrash 3 clean_cut (HRecover 3)].
+
+(* is the newest retained history the one that produced the disk layer? *)
+Definition head_aligned (w : world) : bool :=
+  if disk_id (w_dk w) =? 0 then true else
+  match fr_read (w_fr w) (disk_id (w_dk w)) with
+  | Some h => h_root h =? disk_root (w_dk w)
+  | None => fr_tail (w_fr w) =? disk_id (w_dk w)
+  end.
+
+Definition ex_late_check (mode : N) : option (bool * N * N) :=
+  match run (init_world (mkJCfg 0 false 1 mode) false 0) ex_late_history with
+  | Some w => Some (head_aligned w, disk_root (w_dk w), disk_id (w_dk w))
+  | None => None
+  end.
+
 (* a history WITHOUT Recover for the non-vacuity example: journal with buffered layers,
    restart, more transitions, crash in the middle of a flush *)
 Definition ex_history : list hop :=
@@ -657,7 +685,7 @@ Definition ex_history : list hop :=
    HUpdate (ex_tr 4); HCrash 4 (mkCut true 0 false) (HCommit 0); HUpdate (ex_tr 5)].
 
 Definition ex_check : bool :=
-  match run (init_world (mkJCfg 2 false 1 false) false 0) ex_history with
+  match run (init_world (mkJCfg 2 false 1 2) false 0) ex_history with
   | Some w => (disk_id (w_dk w) =? 3) && (fr_head (w_fr w) =? 3) && (pid (w_dk w) =? 3)
               && (fr_tail (w_fr w) =? 2) && (eff (w_dk w) (KA 0) =? 3)
               && (Nat.eqb (length (w_diffs w)) 1)
@@ -678,6 +706,22 @@ Record LInv (w : world) (l lp : list transition) : Prop := {
   li_p : PInv w lp;
   li_jid : forall j, In (Some j) (slots w) -> j_proot j = w_proot w ->
            pid (w_dk w) <= j_id j -> j_id j <= disk_id (w_dk w) }.
+
+(* the same without the diff layers (holds while layers are being merged one by one) *)
+Record LInvD (w : world) (l lp : list transition) : Prop := {
+  ld_d : DInv 0 l (w_dk w);
+  ld_wf : wf_chain l;
+  ld_head : fr_head (w_fr w) = len l;
+  ld_fr : fok (w_stail w) (fr_data (w_fr w)) l;
+  ld_p : PInv w lp;
+  ld_jid : forall j, In (Some j) (slots w) -> j_proot j = w_proot w ->
+           pid (w_dk w) <= j_id j -> j_id j <= disk_id (w_dk w) }.
+
+Lemma linv_d w l lp : LInv w l lp -> LInvD w l lp.
+Proof. intros [L1 L2 L3 L4 L5 L6 L7]. constructor; assumption. Qed.
+
+Lemma linvd_l w l lp : LInvD w l lp -> diffs_ok (sem_rev l) (len l) (w_diffs w) -> LInv w l lp.
+Proof. intros [L1 L2 L3 L4 L6 L7] L5. constructor; assumption. Qed.
 
 (* every database that New has produced from a persistent state with PInv satisfies it *)
 Lemma open_linv w lp evs w' l :
@@ -868,6 +912,18 @@ Qed.
 
 (* ---------- the events of diskLayer.commit ------------------------------------------------------ *)
 
+Definition ev_frame (w : world) (e : ev) : Prop :=
+  slots (snd e) = slots w /\ w_cfg (snd e) = w_cfg w /\ w_jfile (snd e) = w_jfile w.
+
+Lemma write_history_frame w d :
+  forall e, In e (fst (fst (write_history w d))) -> ev_frame w e.
+Proof.
+  unfold write_history.
+  repeat match goal with |- context [if ?b then _ else _] => destruct b end;
+    simpl; intros e He;
+    repeat (destruct He as [<-|He]; [unfold ev_frame; simpl; auto|]); try contradiction.
+Qed.
+
 Lemma fok_write st data l0 id v :
   len l0 < id -> fok st data l0 -> fok st (updN data id v) l0.
 Proof.
@@ -885,7 +941,7 @@ Qed.
 
 (* writeHistory: the append and the optional tail truncation keep PInv *)
 Lemma write_history_pinv w l lp d :
-  LInv w l lp -> d_id d = len l + 1 ->
+  LInvD w l lp -> d_id d = len l + 1 ->
   exists evs w1 fl,
     write_history w d = (evs, Done w1, fl) /\
     (forall e, In e evs -> PInv (snd e) lp) /\ PInv w1 lp /\
@@ -895,7 +951,7 @@ Lemma write_history_pinv w l lp d :
     fr_data (w_fr w1) = updN (fr_data (w_fr w)) (d_id d)
         (Some (mk_history (disk_root (w_dk w)) (d_root d) (t_changes (d_tr d)))).
 Proof.
-  intros LI Hid. destruct LI as [L1 L2 L3 L4 L5 L6 L7].
+  intros LI Hid. destruct LI as [L1 L2 L3 L4 L6 L7].
   assert (L6' := L6). destruct L6' as [P1 P2 P3 P4 P5 P6 P7 P8 P9 P10 P11].
   assert (Hpl : pid (w_dk w) <= len l).
   { rewrite <- (i_id _ _ _ L1), <- (i_pid _ _ _ L1). lia. }
@@ -990,16 +1046,20 @@ Qed.
    The premise on the journals is the caller's freshness obligation: the new state root
    is not the persisted root any stored journal was written for. *)
 Theorem disk_commit_events_pinv w l lp d force :
-  LInv w l lp -> d_id d = len l + 1 -> d_root d = t_root (d_tr d) ->
+  LInvD w l lp -> d_id d = len l + 1 -> d_root d = t_root (d_tr d) ->
   wf_tr (sem_rev l) (d_tr d) ->
   (forall j, In (Some j) (slots w) -> j_proot j <> d_root d) ->
-  exists evs w', disk_commit w d force = (evs, Done w') /\
-    (forall e, In e evs -> PInv (snd e) lp \/ PInv (snd e) (d_tr d :: l)).
+  exists evs w' lp', disk_commit w d force = (evs, Done w') /\
+    (forall e, In e evs -> PInv (snd e) lp \/ PInv (snd e) (d_tr d :: l)) /\
+    LInvD w' (d_tr d :: l) lp' /\
+    (forall e, In e evs -> ev_frame w e) /\ ev_frame w (0, w') /\
+    w_diffs w' = w_diffs w /\ w_ro w' = w_ro w /\
+    (w_proot w' = w_proot w \/ w_proot w' = d_root d).
 Proof.
   intros LI Hid Hroot W FR.
   destruct (write_history_pinv w l lp d LI Hid)
     as [evs1 [w1 [fl [Hwh [Pev1 [PW1 [KC [Edk [Eids [Ediffs [Ero [Ecfg [Hhead [Hst Hdata]]]]]]]]]]]]]].
-  destruct LI as [L1 L2 L3 L4 L5 L6 L7].
+  destruct LI as [L1 L2 L3 L4 L6 L7].
   unfold disk_commit. rewrite Hwh.
   set (o := w_dk w1).
   set (w2a := if disk_id o =? 0 then set_ids w1 (updN (w_ids w1) (disk_root o) (Some 0)) else w1).
@@ -1014,10 +1074,33 @@ Proof.
   set (o1 := mkDisk (disk_root o) (disk_id o) (buf_layers o + 1)
                     (merge_changes (buf o) (t_changes (d_tr d))) (pflat o) (pid o)).
   assert (D : DInv 0 l o) by (unfold o; rewrite Edk; exact L1).
+  assert (HF : (pid o1 + buf_layers o1 =? d_id d) = true).
+  { apply N.eqb_eq. simpl. rewrite Hid, <- (i_id _ _ _ D), <- (i_pid _ _ _ D). lia. }
+  assert (FR1 : forall e, In e evs1 -> ev_frame w e).
+  { intros e He. apply (write_history_frame w d). rewrite Hwh. exact He. }
+  assert (FW1 : slots w1 = slots w /\ w_cfg w1 = w_cfg w /\ w_jfile w1 = w_jfile w).
+  { assert (KC' := KC). unfold kv_core in KC'. injection KC' as K1 K2 K3 K4 K5 K6 K7.
+    unfold slots. rewrite K4, K5, K6. auto. }
+  assert (FW2a : ev_frame w (EV_PUT_ID, w2a)).
+  { unfold ev_frame, w2a. destruct (disk_id o =? 0); exact FW1. }
+  assert (FW2 : forall k (wx : world), slots wx = slots w2a -> w_cfg wx = w_cfg w2a ->
+                  w_jfile wx = w_jfile w2a -> ev_frame w (k, wx)).
+  { intros k wx A B C. destruct FW2a as [A' [B' C']]. unfold ev_frame. simpl in *.
+    rewrite A, B, C. auto. }
+  assert (FOKN : forall st, w_stail w <= st -> fok st (fr_data (w_fr w1)) (d_tr d :: l)).
+  { intros st Hs. unfold fok. simpl. split.
+    - intro Ht. rewrite Hdata. unfold updN.
+      replace (len (d_tr d :: l)) with (d_id d) by (rewrite Hid, len_cons; reflexivity).
+      rewrite N.eqb_refl. f_equal.
+      rewrite (mk_history_wf (sem_rev l) _ _ (d_tr d) W). f_equal.
+      + rewrite <- Edk. apply (i_root _ _ _ D).
+      + exact Hroot.
+    - fold (fok st (fr_data (w_fr w1)) l).
+      rewrite Hdata. apply fok_write; [lia|].
+      eapply fok_mono; [|exact L4]. exact Hs. }
   destruct (jc_full (w_cfg w) || force || fl).
   - (* flush *)
-    replace (pid o1 + buf_layers o1 =? d_id d) with true.
-    2:{ symmetry. apply N.eqb_eq. simpl. rewrite Hid, <- (i_id _ _ _ D), <- (i_pid _ _ _ D). lia. }
+    rewrite HF.
     cbn [negb].
     set (w3 := fr_sync (set_dk w2 o1)).
     set (w4 := set_state w3 (mkDisk (d_root d) (d_id d) 0 empty_buf (eff o1) (d_id d)) (d_root d)).
@@ -1060,12 +1143,69 @@ Proof.
       - intros j Hj E1 _. exfalso. apply (FR j).
         + unfold slots in *. rewrite F4, F5, F6, K4, K5, K6 in Hj. exact Hj.
         + exact E1. }
-    eexists _, _. split; [reflexivity|].
-    intros e He. apply in_app_iff in He. destruct He as [He|He]; [left; apply Pev1; exact He|].
-    apply in_app_iff in He. destruct He as [He|He]; [left; apply Pe2; exact He|].
-    destruct He as [<-|[<-|[]]]; [left; exact PW3|right; exact PW4].
-  - eexists _, _. split; [reflexivity|].
-    intros e He. apply in_app_iff in He. destruct He as [He|He]; left; [apply Pev1|apply Pe2]; exact He.
+    exists (evs1 ++ (e2a ++ [(EV_PUT_ID, w2)]) ++ [(EV_SYNC, w3); (EV_BATCH, w4)]), w4, (d_tr d :: l).
+    split; [reflexivity|]. split.
+    { intros e He. apply in_app_iff in He. destruct He as [He|He]; [left; apply Pev1; exact He|].
+      apply in_app_iff in He. destruct He as [He|He]; [left; apply Pe2; exact He|].
+      destruct He as [<-|[<-|[]]]; [left; exact PW3|right; exact PW4]. }
+    split.
+    { constructor.
+      - destruct (commit_disk_ok 0 l o d true D W Hid Hroot) as [o' [Eq DI]].
+        unfold commit_disk, flush_buffer in Eq. fold o1 in Eq. rewrite HF in Eq. simpl in Eq.
+        injection Eq as <-. exact DI.
+      - simpl. split; [exact W|exact L2].
+      - rewrite F1, Hhead, Hid, len_cons. reflexivity.
+      - exact (p_fr _ _ PW4).
+      - exact PW4.
+      - intros j Hj E1 _. exfalso. apply (FR j).
+        + unfold slots in *. rewrite F4, F5, F6, K4, K5, K6 in Hj. exact Hj.
+        + exact E1. }
+    split.
+    { intros e He. apply in_app_iff in He. destruct He as [He|He]; [apply FR1; exact He|].
+      apply in_app_iff in He. destruct He as [He|He].
+      - apply in_app_iff in He. destruct He as [He|[<-|[]]]; [|apply FW2; reflexivity].
+        unfold e2a in He. destruct (disk_id o =? 0); [destruct He as [<-|[]]; exact FW2a|destruct He].
+      - destruct He as [<-|[<-|[]]]; apply FW2; reflexivity. }
+    split; [apply FW2; reflexivity|].
+    split; [unfold w4, w3, w2, w2a; destruct (disk_id o =? 0); simpl; exact Ediffs|].
+    split; [unfold w4, w3, w2, w2a; destruct (disk_id o =? 0); simpl; exact Ero|].
+    right. reflexivity.
+  - set (wn := set_dk w2 (mkDisk (d_root d) (d_id d) (buf_layers o1) (buf o1) (pflat o1) (pid o1))).
+    assert (W2dk : w_dk w2 = o).
+    { unfold w2, w2a, o. destruct (disk_id (w_dk w1) =? 0); reflexivity. }
+    assert (KC' := KC). unfold kv_core in KC'. injection KC' as K1 K2 K3 K4 K5 K6 K7.
+    assert (PWn : PInv wn lp).
+    { apply pinv_dk; [exact PW2|rewrite W2dk; reflexivity|rewrite W2dk; reflexivity]. }
+    assert (Wnfr : w_fr wn = w_fr w1 /\ w_stail wn = w_stail w1 /\ w_proot wn = w_proot w1 /\
+                   w_kvj wn = w_kvj w1 /\ w_jlive wn = w_jlive w1 /\ w_jdur wn = w_jdur w1).
+    { unfold wn, w2, w2a. destruct (disk_id o =? 0); simpl; repeat split. }
+    destruct Wnfr as [F1 [F3 [F0 [F4 [F5 F6]]]]].
+    exists (evs1 ++ e2a ++ [(EV_PUT_ID, w2)]), wn, lp.
+    split; [reflexivity|]. split.
+    { intros e He. apply in_app_iff in He. destruct He as [He|He]; left; [apply Pev1|apply Pe2]; exact He. }
+    split.
+    { constructor.
+      - destruct (commit_disk_ok 0 l o d false D W Hid Hroot) as [o' [Eq DI]].
+        unfold commit_disk in Eq. simpl in Eq. injection Eq as <-. exact DI.
+      - simpl. split; [exact W|exact L2].
+      - rewrite F1, Hhead, Hid, len_cons. reflexivity.
+      - rewrite F3, F1. apply FOKN. exact Hst.
+      - exact PWn.
+      - intros j Hj E1 E2. simpl.
+        assert (X : j_id j <= disk_id (w_dk w)).
+        { apply L7.
+          - unfold slots in *. rewrite F4, F5, F6, K4, K5, K6 in Hj. exact Hj.
+          - rewrite F0, K1 in E1. exact E1.
+          - simpl in E2. unfold o in E2. rewrite K3 in E2. exact E2. }
+        rewrite (i_id _ _ _ L1) in X. lia. }
+    split.
+    { intros e He. apply in_app_iff in He. destruct He as [He|He]; [apply FR1; exact He|].
+      apply in_app_iff in He. destruct He as [He|[<-|[]]]; [|apply FW2; reflexivity].
+      unfold e2a in He. destruct (disk_id o =? 0); [destruct He as [<-|[]]; exact FW2a|destruct He]. }
+    split; [apply FW2; reflexivity|].
+    split; [unfold wn, w2, w2a; destruct (disk_id o =? 0); simpl; exact Ediffs|].
+    split; [unfold wn, w2, w2a; destruct (disk_id o =? 0); simpl; exact Ero|].
+    left. rewrite F0. exact K1.
 Qed.
 
 (* one operation ahead of any live database: every crash point of the merge of a diff
@@ -1081,7 +1221,8 @@ Theorem commit_crash_consistent w l lp d force c :
                               LInv w'' l' lp'.
 Proof.
   intros LI Hid Hroot W FR.
-  destruct (disk_commit_events_pinv w l lp d force LI Hid Hroot W FR) as [evs [w' [E P]]].
+  destruct (disk_commit_events_pinv w l lp d force (linv_d _ _ _ LI) Hid Hroot W FR)
+    as [evs [w' [lp' [E [P _]]]]].
   exists evs, w'. split; [exact E|]. intros e He.
   destruct (P e He) as [Pe|Pe].
   - destruct (crash_open_consistent _ _ c Pe) as [evs' [w'' [l' [O [C _]]]]].
